@@ -27,7 +27,7 @@ from mirsym import models as M
 from mirsym import vfs as VF
 from mirsym import plumbing as PL      # noqa: F401
 from mirsym.models import ok, err, some, none, deref, future, pin_box, LockV
-from mirsym.engine import (Cell, Ref, Int, EnumV, Agg, VecV, Opaque, Inconclusive, Untranslatable, bz3, to_bool,
+from mirsym.engine import (Cell, Ref, Int, EnumV, Agg, VecV, Opaque, Inconclusive, Untranslatable, bz3, to_bool, b_not,
                            deep_copy, unit)
 
 CRATES = ["sos_core", "sos_filesystem", "sos_backend", "sos_sync", "sos_server_storage"]
@@ -81,6 +81,36 @@ def m_merge_dispatch(engine, ctx, args, callee, frame):
     return engine.run_fn(fn, args, {"T": "T"})
 
 
+@model(r"^<T as (crate::|sos_server_storage::)?(traits::)?ServerAccountStorage>::replace_folder(::<.*>)?$")
+def m_replace_folder(engine, ctx, args, callee, frame):
+    """the file-system server storage's implementation, run from its MIR on a stand-in for `self`"""
+    prog = engine.program
+    fn = None
+    for key, f in prog.fns.items():
+        if prog.pretty(f.name) == "<ServerFileStorage as ServerAccountStorage>::replace_folder" and "{closure" not in f.name:
+            fn = f
+    if fn is None:
+        raise Untranslatable("no MIR for <ServerFileStorage as ServerAccountStorage>::replace_folder")
+    me = Cell(Agg("struct", "ServerFileStorage", [Cell(Opaque("field%d" % i)) for i in range(10)]))
+    me.v.fields[0].v = Agg("struct", "AccountId", [Cell(Agg("array", None, [Cell(Int(0, 8)) for _ in range(20)]))])
+    me.v.fields[2].v = EnumV("BackendTarget", "FileSystem", prog.enum_variant("BackendTarget", "FileSystem"), [Cell(Ref(Cell(Opaque("Paths"))))])
+    return engine.run_fn(fn, [Ref(me)] + list(args[1:]), None)
+
+
+@model(r"^(sos_backend::)?BackendEventLog::<.*>::new_folder$|^FolderEventLog::new_folder$")
+def m_new_folder(engine, ctx, args, callee, frame):
+    """`new_folder` opens the file and checks its identity bytes; the commit tree starts EMPTY (not loaded)"""
+    d = engine.program.enum_variant("BackendEventLog", "FileSystem")
+    fresh = O.new_log(engine, ctx, False)
+    World.cur["fresh_logs"] = World.cur.get("fresh_logs", 0) + 1
+    return future(callee, lambda: ok(EnumV("BackendEventLog", "FileSystem", d, [Cell(fresh)])))
+
+
+@model(r"^<T as (crate::|sos_server_storage::)?(traits::)?ServerAccountStorage>::write_vault(::<.*>)?$")
+def m_write_vault(engine, ctx, args, callee, frame):
+    return pin_box(future(callee, lambda: ok(unit())))
+
+
 @model(r"TrackedChanges::new_\w+_records(::<.*>)?$")
 def m_tracked(engine, ctx, args, callee, frame):
     return future(callee, lambda: ok(M.SetV("IndexSet")))
@@ -109,6 +139,11 @@ def scenarios(tier):
         out.append({"k": 3, "rewind": True, "nb": 1, "n": 1})      # a rewind that removes two records
     else:
         out.append({"k": 2, "rewind": True, "nb": 1, "n": 2})
+    # a forced replacement of the folder log (update-account / force update): refused when the checkpoint is not
+    # the head of the replacement
+    for k in ks:
+        out.append({"k": k, "rewind": False, "nb": 1, "n": 1, "force": True})
+    out.append({"k": 1, "rewind": False, "nb": 2, "n": 1, "force": True})
     # the merge entry point a sync packet reaches without event_patch around it
     for k in ks:
         out.append({"k": k, "rewind": False, "nb": k, "n": 1, "direct": True})
@@ -160,7 +195,16 @@ def run_scenario(prog, sc):
         lt = EnumV("EventLogType", "Folder", eng.program.enum_variant("EventLogType", "Folder"), [Cell(folder_id())])
         req = Agg("struct", "PatchRequest", [Cell(lt), Cell(commit), Cell(proof), Cell(O.vec(new))])
         me = Cell(Agg("struct", "SyncImpl", [Cell(Opaque("T"))]))
-        if sc.get("direct"):
+        if sc.get("force"):
+            from .c11_devices import find_impl
+            _, fn = find_impl(eng.program, "ForceMerge", "force_merge_folder")
+            if fn is None:
+                raise Untranslatable("no MIR for <SyncImpl as ForceMerge>::force_merge_folder")
+            patch = Agg("struct", "Patch", [Cell(O.vec(new)), Cell(Agg("struct", "PhantomData", []))])
+            diff = Agg("struct", "Diff", [Cell(patch), Cell(proof), Cell(none())])
+            outcome = Cell(M.default_value(eng, ctx, "MergeOutcome", None))
+            fut = eng.run_fn(fn, [Ref(me), Ref(Cell(folder_id())), diff, Ref(outcome)], {"T": "T"})
+        elif sc.get("direct"):
             from .c11_devices import find_impl
             _, fn = find_impl(eng.program, "Merge", "merge_folder")
             if fn is None:
@@ -172,7 +216,8 @@ def run_scenario(prog, sc):
         else:
             fut = eng.call_named("event_patch::<SyncImpl<T>, E>", [req, Ref(me)], None)
         res = H.poll_to_result(eng, ctx, fut)
-        logv = lock.inner.v.fields[0]
+        cur_lock = deref(folders.entries[0][1].v)
+        logv = cur_lock.inner.v.fields[0]
         mem_leaves = list(F.tree_state(eng, F.tree_of(logv.v))[0])
         post_file = O.file_snapshot(vfs)
         log2 = Cell(O.new_log(eng, ctx, False))
@@ -211,7 +256,7 @@ def run_scenario(prog, sc):
         patch = O.concrete_records(m, v["nmeta"])
         for i, p in enumerate(patch):
             p["payload"] = "".join("%02x" % ev(z3.BitVec("n%d_p%d" % (i, j), 8)) for j in range(PLEN))
-        case = {"op": "server_event_patch", "what": what, "scenario": sc, "direct": bool(sc.get("direct")),
+        case = {"op": "server_event_patch", "what": what, "scenario": sc, "direct": bool(sc.get("direct")), "force": bool(sc.get("force")),
                 "log": O.concrete_records(m, v["imeta"], prefix="i"),
                 "rewind_to": None if v["target"] is None else ev(v["target"]),
                 "proof_of": [ev(b) for b in v["proof_bytes"]],
@@ -243,6 +288,17 @@ def run_scenario(prog, sc):
         v = res.value
         r = v["result"]
         pre = v["pre_leaves"]
+        if sc.get("force"):
+            nc = [m["commit"] for m in v["nmeta"]]
+            pb = v["proof_bytes"]
+            verified = to_bool(z3.And(*[b == c for b, c in zip(pb, nc)])) if len(pb) == len(nc) else False
+            if r.variant == "Ok":
+                check(res, verified, "forced replacement accepted although the checkpoint is not the head of the new events", "force|accepted wrong checkpoint")
+                check(res, O.leaves_are(v["mem_leaves"], nc), "log after a forced replacement is not the new events", "force|wrong log")
+            else:
+                check(res, b_not(verified), "forced replacement refused although the checkpoint matches", "force|refused matching checkpoint")
+                unchanged(res, v, "forced replacement of the folder log refused", "force refused")
+            return
         if r.variant == "Ok":
             first = r.fields[0].v.fields[0].v           # (PatchResponse, MergeOutcome).0 or (CheckedPatch, Vec<_>).0
             cp = first if sc.get("direct") else first.fields[0].v
@@ -301,6 +357,10 @@ def confirm(case, nat):
     res = nat.get("result", "")
     pl = nat.get("prefix_leaf")
     changed = nat["file_changed"] or nat["memory"] != nat["before"] or nat["reopened"] != nat["before"]
+    if "forced replacement of the folder log refused" in what:
+        return res.startswith("err") and changed
+    if "forced replacement" in what:
+        return False
     if "conflict" in what:
         return res == "conflict" and changed
     if "failed with an error" in what:
